@@ -33,8 +33,8 @@ def run(ctx):
     batch = Batch(ctx["driver_ok"])
     models = list(known_decay_models)
 
-    def parse_line(line_text, extra=(), calls=1, reparse=0):
-        text = f"Decay B0\n{line_text}\nEnddecay\n"
+    def parse_line(line_text, extra=(), calls=1, reparse=0, prefix=""):
+        text = f"{prefix}Decay B0\n{line_text}\nEnddecay\n"
         p = DecFileParser.from_string(text)
         if extra:
             ex = list(extra)
@@ -52,10 +52,12 @@ def run(ctx):
         d = p._decay_mode_details(dm, display_photos_keyword=True)
         return d
 
-    def expect_model(line_text, name, photos, params, fs, extra=(), calls=1, label="", nontrivial=False, reparse=0):
+    def expect_model(line_text, name, photos, params, fs, extra=(), calls=1, label="", nontrivial=False, reparse=0, prefix=""):
         case = {"kind": "model-name", "label": label, "line": line_text, "registered": list(extra), "calls": calls, "parsed_before": reparse}
+        if prefix:
+            case["before_the_block"] = prefix
         try:
-            d = parse_line(line_text, extra, calls, reparse)
+            d = parse_line(line_text, extra, calls, reparse, prefix)
             got = [d["model"], list(d["fs"]), d["model_params"]]
         except Exception as e:
             got = "error: " + err_class(e)
@@ -142,6 +144,15 @@ def run(ctx):
         if got != [a, b, b, a]:
             res.violation("of two names where one is a prefix of the other, the one written is not the one reported", case, impl=got, model=[a, b, b, a], clause="prefix pairs")
     res.distribution["published_prefix_pairs"] = len(pairs)
+    # a ModelAlias whose label is spelled like a supported model name: the word in model position is the model name itself
+    for m in rng.sample(models, 6 if tier == "quick" else 40) + ["PHSP"]:
+        other = "SVS" if m != "SVS" else "PHSP"
+        pre = f"ModelAlias {m} {other};\n" if rng.random() < 0.5 else f"ModelAlias {m} HELAMP 1.0 0.0;\n"
+        expect_model(f"1.0 K+ pi- {m};", m, False, "", ["K+", "pi-"], label="alias-spelled-like-model", nontrivial=True, prefix=pre)
+        expect_model(f"1.0 K+ pi- {m} 0.5 w;", m, False, [0.5, "w"], ["K+", "pi-"], label="alias-spelled-like-model", nontrivial=True, prefix=pre)
+    u = "MYMODEL"
+    expect_model(f"1.0 K+ pi- {u} 0.5;", u, False, [0.5], ["K+", "pi-"], extra=[u], label="alias-spelled-like-model", nontrivial=True,
+                 prefix=f"ModelAlias {u} HELAMP 1.0 0.0;\n")
     # user-registered names
     alphabet = "ABCXYZabc019_-"
     n_user = 80 if tier == "quick" else 1200
